@@ -217,7 +217,7 @@ class Scratch:
             shutil.rmtree(self.dir, ignore_errors=True)
 
     # ------------------------------------------------------------------------------------------------------------
-    def cargo_kani(self, harnesses, jobs=8, harness_timeout=None, extra=(), overall_timeout=None, export=None):
+    def cargo_kani(self, harnesses, jobs=8, harness_timeout=None, extra=(), overall_timeout=None, export=None, mem_gb=None):
         cmd = ['cargo', 'kani', '--no-default-features', '--lib', '-Z', 'stubbing', '-Z', 'function-contracts',
                '-Z', 'unstable-options']
         if harnesses:
@@ -233,7 +233,14 @@ class Scratch:
         cmd += list(extra)
         t0 = time.time()
         try:
-            p = subprocess.run(cmd, cwd=self.crate, env=ENV, capture_output=True, text=True, timeout=overall_timeout)
+            pre = None
+            if mem_gb:
+                # address-space cap inherited by cbmc: trace generation (--trace) of some failing harnesses grows past RAM;
+                # running out of memory then ends in "no counterexample extracted", never in a dead sandbox
+                import resource
+                lim = int(mem_gb) << 30
+                pre = lambda: resource.setrlimit(resource.RLIMIT_AS, (lim, lim))
+            p = subprocess.run(cmd, cwd=self.crate, env=ENV, capture_output=True, text=True, timeout=overall_timeout, preexec_fn=pre)
             out, rc = p.stdout + '\n' + p.stderr, p.returncode
         except subprocess.TimeoutExpired as e:
             out = ((e.stdout or b'').decode(errors='replace') if isinstance(e.stdout, bytes) else (e.stdout or '')) + '\n[overall timeout]'
